@@ -17,6 +17,9 @@ CLAIMED["C12"]=("Bounded symbolic execution of the real evaluator (evalIf, evalS
 CLAIMED["C15"]=("Bounded symbolic execution of the real evalStmts/_evalStmts/evalDefer/evalJumpIf*/evalPanFuncCall through generated programs: every body of 1..3 (thorough 1..4) statements over 7 statement kinds, with the exit point k and each defer guard an arbitrary int64; on every feasible path z3 discharges equality of the observed mark trace and outcome with the reference model (reached defers run once, in order, after the body; outcome unchanged unless a defer raises), including the caller continuing afterwards.",
         TRUST,
         "SMT-decided bounded symbolic execution of go/ssa (z3, bit-vectors); program shapes enumerated by solver-decided choices")
+CLAIMED["C07"]=("Bounded symbolic execution of the real evaluator over 25 program templates whose sub-expressions are fault-injection slots step(i): the failing position K is a solver variable in [0, m] and the error kind a solver choice; on every feasible path z3 discharges that nothing is evaluated after the failing slot, no slot runs twice, the enclosing call/statement list does not continue, the outcome is the same error kind and message (or is delivered to try / the thoughtful chain), and without a failure every slot runs once.",
+        TRUST,
+        "SMT-decided bounded symbolic execution of go/ssa (z3, bit-vectors); symbolic fault position")
 NA={
 }
 DEFAULT_NA="check under construction in this session (engine exists; harness not yet registered)"
